@@ -22,8 +22,17 @@ PROPS["C11"] = dict(
     assumptions=[
         "each cacheutil.LRUCache method (with the OnEvicted callbacks it runs) is atomic under the cache mutex; open/rename/unlink/write on a "
         "private wip file are atomic syscalls, rename replaces atomically and an open descriptor keeps reading the old inode (POSIX)",
-        "clients follow the documented cache.Writer / cache.Reader protocol: Write* ; (Commit | Abort) ; Close, no use of a reader after its Close "
-        "(other ops are no-ops in the model and are never sent to the implementation)",
+        "per-writer call order is the one cache.Writer documents ('Commit() must be called after data is fully written to Write(). To abort "
+        "the written data, Abort() must be called'): Write* ; (Commit | Abort) ; Close*, and a reader is not used after its Close. The "
+        "quantifier 'every interleaving of Add/Write/Commit/Abort/Close' ranges over interleavings of such per-writer sequences of different "
+        "callers. Orders outside it (Commit;Abort, Commit;Commit, Abort;Commit, Commit;Write on one writer) are no-ops in the model, never "
+        "sent to the implementation by the generators, and DO break the implementation (a memory-layer writer then resets or extends the "
+        "published buffer: a later Get hits with '' or with extra bytes) - recorded, not asserted, by the harness probe in "
+        "stats.extra.out_of_protocol_orders_observed_not_asserted. No caller in /repo issues them: every writer is a local variable of one "
+        "function call (never shared between goroutines) and each function ends in 'Abort(); return' or 'return Commit()' followed only by "
+        "the deferred Close: fs/reader/reader.go cacheWithReader (Add l.264 .. Commit l.299), prefetchEntireFileSequential (l.603-658), "
+        "prefetchEntireFile (l.671-751), cacheData (l.838-845); fs/remote/blob.go fetchRange callback (Add l.536 .. Commit l.554); inside "
+        "cache.go the persist closure calls w.Write then w.Abort or w.Commit once, then the deferred w.Close",
         "keys have at least 2 characters: cachePath slices key[:2] and would panic otherwise; every caller (fs/reader genID, fs/remote "
         "blob genID) passes a hex SHA-256, never a string chosen by a registry or an image, so short keys are outside the property",
         "cache.Close(): the isClosed check and the following rename of one Commit are taken as one step (a Close falling between them "
